@@ -103,6 +103,13 @@ def nx23(F, R):
         return
     for w in ws:
         val = strip_load(w.val)
+        # position.max(id + 1) is "id + 1 unless already larger"
+        if val[0] == "call" and val[1].split("::")[-1] == "max" and len(val[2]) == 2:
+            parts = [strip_load(x) for x in val[2]]
+            pos = [x for x in parts if x[0] == "field" and x[2] == "Sodg::next_v"]
+            oth = [x for x in parts if not (x[0] == "field" and x[2] == "Sodg::next_v")]
+            if len(pos) == 1 and len(oth) == 1:
+                val = oth[0]
         okv = val[0] == "binop" and val[1] == "Add" and strip_load(val[3]) == ("const", 1) and strip_sites(strip_load(val[2])) == strip_sites(rid)
         d = {"value": show(w.val, b), "guards": [show(x, b) for x in sorted(w.facts, key=repr)]}
         if not okv:
@@ -189,9 +196,30 @@ def nx5(F, R):
                         if cl[0] == "closure" and cl[1] == body.path and ent[0] == "call" and ent[1].split("::")[-1] == "entry":
                             tbl = strip_load(ent[2][0])
                             key = ent[2][1]
-                            if tbl[0] == "field" and tbl[2] == "Script::vars" and \
-                                    mentions(key, lambda x: x[0] == "adapt" and x[1] == "skip" and strip_load(x[3][0]) == ("const", 1)):
+                            if tbl[0] == "field" and tbl[2] == "Script::vars":
                                 ok = True
+            if not ok:
+                # accepted alternative: `if let Some(id) = vars.get(name) { return id }; let id = next_id(); vars.insert(name, id)`
+                miss = None
+                for f in e.facts:
+                    if f[0] == "in" and f[2] == frozenset(["None"]) and strip_load(f[1])[0] == "discr":
+                        ce = strip_load(strip_load(f[1])[1])
+                        if ce[0] == "call" and "HashMap" in ce[1] and ce[1].split("::")[-1] == "get" and \
+                                strip_load(ce[2][0])[0] == "field" and strip_load(ce[2][0])[2] == "Script::vars":
+                            miss = ce
+                    if f[0] == "bool" and f[2] is False:
+                        ce = strip_load(f[1])
+                        if ce[0] == "call" and "HashMap" in ce[1] and ce[1].split("::")[-1] == "contains_key" and \
+                                strip_load(ce[2][0])[0] == "field" and strip_load(ce[2][0])[2] == "Script::vars":
+                            miss = ce
+                if miss is not None:
+                    idx = ("call", e.path, tuple(e.args), e.site[0])
+                    for x in c.allraw:
+                        if x.kind == "call" and x.name == "insert" and "HashMap" in x.path and x.body is e.body and len(x.args) == 3 and \
+                                strip_load(x.args[0])[0] == "field" and strip_load(x.args[0])[2] == "Script::vars" and \
+                                strip_sites(strip_load(x.args[2])) == strip_sites(idx) and \
+                                strip_sites(unload(x.args[1])) == strip_sites(unload(miss[2][1])) and e.body.cooccur(e.site, x.site):
+                            ok = True
             if ok:
                 R.ok("NX5", e.where(), "script: next_id() only as the default of vars.entry(name): one id per variable name")
             else:
